@@ -7,6 +7,7 @@ import (
 	"math/rand"
 	"sort"
 	"strings"
+	"sync/atomic"
 	"time"
 
 	"perkeep.org/pkg/blob"
@@ -47,6 +48,7 @@ type history struct {
 	lost   map[blob.Ref]bool // already reported as lost: not reported again at later restarts
 	unsure map[blob.Ref]int
 	ackSeq []int
+	tiny   bool // plaintexts of a fixed tiny shape (long histories)
 }
 
 func runHistory(r *ev.Run, root string, h int) {
@@ -72,6 +74,7 @@ func runHistory(r *ev.Run, root string, h int) {
 	hs := &history{r: r, in: in, id: id, rng: rng, sc: newScanner(), acked: map[blob.Ref]int{}, unsure: map[blob.Ref]int{}, lost: map[blob.Ref]bool{},
 		rec: &histRec{CaseID: id + ";", Receives: n, Crash: kind}}
 	hs.armed = kind
+	in.sc = hs.sc
 	if err := hs.open(hs.armed); err != nil {
 		r.Violation("unrecoverable/empty", "creating an encrypt store over empty stores failed: "+err.Error(), hs.rec)
 		return
@@ -228,7 +231,7 @@ func runHistory(r *ev.Run, root string, h int) {
 	}
 	noteCompactions(r, in)
 	in.leakCheckAll(hs.sc, hs.plains, "end of history")
-	r.Count("bytes_scanned", int(hs.sc.scanned))
+	r.Count("bytes_scanned", hs.sc.takeScanned())
 	r.Count("plaintext_blobs", len(hs.plains))
 	r.Count("histories", 1)
 	r.Count("history_receives", len(hs.plains))
@@ -265,11 +268,15 @@ func (hs *history) open(kind string) error {
 			p.Match = func(layer, op string) bool { return layer == "meta" && op == "RemoveBlobs" }
 			p.FaultAt(0, inject.Freeze)
 		}
-	case "partial-deletions", "deletions-unacked", "freeze-at-packed-upload", "packed-upload-fails":
+	case "partial-deletions", "deletions-unacked", "freeze-at-packed-upload", "packed-upload-fails", "packed-upload-fails-once":
 		k := hs.rng.Intn(1000)
+		var once atomic.Bool
 		in.meta.mu.Lock()
 		in.meta.hook = func(op string, refs []blob.Ref, size int) (action, int, bool) {
 			switch {
+			case kind == "packed-upload-fails-once" && op == "ReceiveBlob" && size >= packedMin && once.CompareAndSwap(false, true):
+				// a transient refusal (after the body was consumed) of one packed upload
+				return actFail, 0, false
 			case kind == "packed-upload-fails" && op == "ReceiveBlob" && size >= packedMin:
 				return actFail, 0, false
 			case kind == "freeze-at-packed-upload" && op == "ReceiveBlob" && size >= packedMin:
